@@ -142,8 +142,10 @@ TEXT = {
             "related results and equal roots (expanding writes under Hinj, relying on the repaired setter); every failure "
             "is a navigation error; summarize_into produces such a tree. View level (PartialViews.v): element / field get and "
             "set, append, pop, bit get / set, Bitlist append / pop, union value and lengths that succeed on the partial tree "
-            "succeed on the complete tree with the same data and again related backings, so histories compose. "
-            "Serialisation / export / iteration over partial trees and the error classes of composed operations: "
+            "succeed on the complete tree with the same data and again related backings; serialisation gives the same bytes "
+            "(C17_encoding); store level (PartialStore.v): any command that succeeds on a store of views over partial trees, "
+            "hook propagation included, succeeds on the complete store and the stores stay related (C17_store_command). "
+            "Export / iteration over partial trees and the error classes of composed operations: "
             "correspondence + model-free comparison of every read path with the complete tree.",
             "Coq proof (simulation relation summ, induction on paths) + correspondence", "5 (C17)"),
     "C18": ("Theorems: get_target_history (model of the fixed code, recursion on the gindex path with per-level "
